@@ -13,3 +13,6 @@ for id in "$@"; do
     echo "== $id exit=$code"
     echo "$out" | grep -E "^(VIOLATION|KNOWN|  class=|HARNESS|done:)" | head -12
 done
+# rebuild from the restored tree: the binaries under sim/target must never be left holding a mutant
+# (VPSIM_NO_BUILD=1 runs would silently use them)
+cd /repo && git checkout -- . ; (cd /verif && ./check --setup >/dev/null 2>&1)
